@@ -134,7 +134,14 @@ def check_roundtrip(case: typing.Any, ctx: Ctx) -> Info:
     expected_bytes = codec.bits_to_bytes(enc.bits)
     name = layout.type_string(spec)[:300]
 
+    import copy
+
+    py_before = copy.deepcopy(py)
     data, _ = guarded(pydsdl.serialize, t, py, with_delimiter_header=with_header, what="serialize")
+    # the value is the caller's: serializing it (filling in omitted fields, clamping, normalising relaxed forms) leaves it as it was
+    require(repr(py) == repr(py_before), "serialize-modifies-its-input", repr(py_before)[:400], repr(py)[:400], "type %s" % layout.type_string(spec)[:200])
+    again_same, _ = guarded(pydsdl.serialize, t, py, with_delimiter_header=with_header, what="serialize-again")
+    require(again_same == data, "serialize-not-repeatable", data.hex(), again_same.hex() if isinstance(again_same, bytes) else again_same, "type %s value %r" % (layout.type_string(spec)[:200], py))
     # the documented alternative container types (tuples for arrays, bytearray / list of ints for byte strings) encode alike
     alt = _vary_forms(py, case.get("form", 0))
     if alt is not None:
